@@ -5,6 +5,7 @@ import (
 	"errors"
 	"flag"
 	"fmt"
+	"math"
 	"os"
 	"strconv"
 	"strings"
@@ -883,10 +884,10 @@ func (g *schedGen) userOp() string {
 		switch w := r.Intn(10); {
 		case w < 4 && g.adds < 3:
 			g.adds++
-			p := def.TaskUpdateParam{WorkId: option.Some("w"), ScheduledAt: option.Some(tt()), Priority: option.Some(r.Intn(2))}
+			p := def.TaskUpdateParam{WorkId: option.Some("w"), ScheduledAt: option.Some(tt()), Priority: option.Some(tiePrio(r))}
 			return fmt.Sprintf("add - t%d %s", g.adds, proto.Param(p))
 		case w < 8:
-			return fmt.Sprintf("upd - %s %s", id(), proto.Param(def.TaskUpdateParam{Priority: option.Some(r.Intn(2))}))
+			return fmt.Sprintf("upd - %s %s", id(), proto.Param(def.TaskUpdateParam{Priority: option.Some(tiePrio(r))}))
 		case w < 9:
 			return fmt.Sprintf("upd - %s %s", id(), proto.Param(def.TaskUpdateParam{ScheduledAt: option.Some(tt())}))
 		default:
@@ -904,7 +905,7 @@ func (g *schedGen) userOp() string {
 		g.adds++
 		p := def.TaskUpdateParam{WorkId: option.Some("w"), ScheduledAt: option.Some(T0.Add(rng.Pick(r, schedTimes)))}
 		if r.Chance(1, 2) {
-			p.Priority = option.Some(r.Intn(3) - 1)
+			p.Priority = option.Some(hookPrio(r))
 		}
 		return fmt.Sprintf("add - t%d %s", g.adds, proto.Param(p))
 	case w < 8:
@@ -913,7 +914,7 @@ func (g *schedGen) userOp() string {
 			p.ScheduledAt = option.Some(T0.Add(rng.Pick(r, schedTimes)))
 		}
 		if r.Chance(1, 3) || p.ScheduledAt.IsNone() {
-			p.Priority = option.Some(r.Intn(3) - 1)
+			p.Priority = option.Some(hookPrio(r))
 		}
 		return fmt.Sprintf("upd - %s %s", id(), proto.Param(p))
 	default:
@@ -1031,4 +1032,12 @@ func cmdSched(args []string) {
 	}
 	analyse(&c, "sched", hists, traces, schedExec, rep)
 	writeReport(&c, rep)
+}
+
+// tiePrio: the tie-heavy profile's two priorities, and now and then a boundary value of Go's int.
+func tiePrio(r *rng.R) int {
+	if r.Chance(1, 10) {
+		return rng.Pick(r, []int{math.MinInt64, math.MaxInt64})
+	}
+	return r.Intn(2)
 }
